@@ -13,6 +13,7 @@ import TlxVerif.Proofs.C01Main
 import TlxVerif.Proofs.C01Query
 import TlxVerif.Proofs.C01Copy
 import TlxVerif.Proofs.C01EraseE
+import TlxVerif.Proofs.C01EraseG
 namespace TlxVerif.C01
 
 variable {K V : Type}
@@ -173,6 +174,60 @@ def erase_iter_refines_statement (p : Params K) : Prop :=
   ∀ (t : Tree K V) (leaf slot : Nat) (e : K × V), TreeInv p t → deref t.leafChain (leaf, slot) = some e →
     ∃ res, eraseIter p t leaf slot = some res ∧ res.erased = true ∧
       res.tree.toList = t.toList.eraseIdx (rankOf t.leafChain (some (leaf, slot)))
+
+/-! ## histories of insertions and erasures -/
+
+/-- an update of the container: insert or erase_one -/
+inductive Upd (K V : Type) where
+  | ins (k : K) (v : V)
+  | er1 (k : K)
+
+def runUpds (p : Params K) : Tree K V → List (Upd K V) → Option (Tree K V)
+  | t, [] => some t
+  | t, .ins k v :: ops =>
+    match insert p t k v with
+    | none => none
+    | some r => runUpds p r.tree ops
+  | t, .er1 k :: ops =>
+    match eraseOne p t k with
+    | none => none
+    | some r => runUpds p r.tree ops
+
+def Spec.runUpds (p : Params K) : List (K × V) → List (Upd K V) → List (K × V)
+  | l, [] => l
+  | l, .ins k v :: ops => Spec.runUpds p (Spec.runInserts p l [(k, v)]) ops
+  | l, .er1 k :: ops => Spec.runUpds p (Spec.eraseOne p l k).1 ops
+
+/-- **refinement for all histories of insertions and erasures by key**: from any state satisfying the
+invariant (in particular the empty container) the B+ tree model is defined at every step, stays inside
+the invariant, and holds exactly the entry sequence of the abstract sorted-list container driven by the
+same history — for every capacity ≥ 4, both in-node searches, unique and duplicate-key containers and
+every strict weak order -/
+theorem history_refines (p : Params K) (pv : p.Valid) (sw : StrictWeak p.lt) :
+    ∀ (ops : List (Upd K V)) (t : Tree K V), TreeInv p t →
+      ∃ t', runUpds p t ops = some t' ∧ TreeInv p t' ∧ t'.toList = Spec.runUpds p t.toList ops := by
+  intro ops
+  induction ops with
+  | nil => intro t ht; exact ⟨t, rfl, ht, rfl⟩
+  | cons op ops ih =>
+    intro t ht
+    cases op with
+    | ins k v =>
+      obtain ⟨res, hres, hinv, _, htl⟩ := insert_step_refines p pv sw t ht k v
+      obtain ⟨t', h1, h2, h3⟩ := ih res.tree hinv
+      exact ⟨t', by simp only [runUpds, hres]; exact h1, h2, by rw [h3, htl]; rfl⟩
+    | er1 k =>
+      obtain ⟨res, hres, hspec⟩ := erase_one_refines p pv sw t ht k
+      obtain ⟨res', hres', hinv⟩ := eraseTop_treeInv p pv sw (.key k) t ht
+      have : res' = res := by
+        have h1 : eraseOne p t k = some res' := hres'
+        rw [hres] at h1; cases h1; rfl
+      subst this
+      obtain ⟨t', h1, h2, h3⟩ := ih res'.tree hinv
+      refine ⟨t', by simp only [runUpds, hres]; exact h1, h2, ?_⟩
+      rw [h3]
+      have : res'.tree.toList = (Spec.eraseOne p t.toList k).1 := by rw [← hspec]
+      rw [this]; rfl
 
 /-! ## copy, assignment, clear -/
 
